@@ -197,14 +197,34 @@ struct Worker
   bool has = false, quit = false;
 };
 static std::vector<std::unique_ptr<Worker>> g_workers;
+// Every worker OS thread keeps a BASE frame (a Context without span, so GetCurrentSpan() is invalid as on an
+// empty stack).  Scopes may be destroyed on other threads / out of order, which legitimately leaves frames of
+// dead scopes behind; releasing the base token between behaviours unwinds them, and "the top of the stack
+// is the base frame" (public API: RuntimeContext::GetCurrent()) tells that nothing is attached.
+static thread_local nostd::unique_ptr<ctxns::Token> tl_base;
+static thread_local ctxns::Context tl_base_ctx;
+static void base_reset()
+{
+  tl_base.reset();
+  tl_base_ctx = ctxns::Context{}.SetValue("c05.base", (int64_t)1);
+  tl_base     = ctxns::RuntimeContext::Attach(tl_base_ctx);
+}
+static bool at_base()
+{
+  return ctxns::RuntimeContext::GetCurrent() == tl_base_ctx;
+}
 static void worker_main(Worker *w)
 {
   std::unique_lock<std::mutex> l(w->m);
+  base_reset();
   for (;;)
   {
     w->cv.wait(l, [&] { return w->has || w->quit; });
     if (w->quit)
+    {
+      tl_base.reset();
       return;
+    }
     w->job();
     w->has = false;
     w->cv.notify_all();
@@ -291,7 +311,8 @@ struct World
   std::vector<Entity> ents;
   std::map<long, std::string> trace_sym, span_sym;  // symbolic id -> concrete hex
   std::set<std::string> seen_traces, seen_spans;    // every concrete id seen so far
-  std::vector<std::vector<std::unique_ptr<api::Scope>>> scopes;
+  std::map<int, std::unique_ptr<api::Scope>> scopes;   // live Scope objects by scope id
+  std::map<int, int> scope_thread;                     // scope id -> model thread it was created on
   std::string ts_txt[3];
   bool gen_is_random;
   // lifetime of the OS thread behind each model thread: 0 long-lived, 1 sometimes replaced, 2 replaced
@@ -308,7 +329,6 @@ struct World
     ts_txt[1]     = TS1[rng() % 2];
     ts_txt[2]     = TS2[rng() % 2];
     gen_is_random = rng() % 2;
-    scopes.resize(8);
     for (int i = 0; i < 8; ++i)
     {
       life[i] = (int)(rng() % 3);
@@ -318,7 +338,11 @@ struct World
   }
   void maybe_recycle(int t)
   {
-    if (!recycle || t <= 0 || t >= 8 || !scopes[(size_t)t].empty())
+    if (!recycle || t <= 0 || t >= 8 || (size_t)t > g_workers.size() || !g_workers[(size_t)t - 1])
+      return;
+    bool base = false;
+    run_on(t, [&] { base = at_base(); });
+    if (!base)      // something is attached on this OS thread: it must live on
       return;
     if (hold[t])
     {
@@ -718,14 +742,15 @@ static bool run_behaviour(const json &steps, uint64_t seed, bool random_ids, Pro
       int t      = st["t"];
       Entity &en = w.ents[(size_t)st["e"].get<int>() - 1];
       w.maybe_recycle(t);
-      run_on(t, [&] {
-        w.scopes[(size_t)t].emplace_back(new api::Scope(en.span));
-      });
+      int sc = st["sc"];
+      run_on(t, [&] { w.scopes[sc].reset(new api::Scope(en.span)); });
+      w.scope_thread[sc] = t;
     }
     else if (op == "release")
     {
-      int t = st["t"];
-      run_on(t, [&] { w.scopes[(size_t)t].pop_back(); });
+      // the Scope object sc is destroyed on thread t - whatever thread created it, in whatever order
+      int t = st["t"], sc = st["sc"];
+      run_on(t, [&] { w.scopes.erase(sc); });
     }
     else if (op == "end")
     {
@@ -815,13 +840,11 @@ static bool run_behaviour(const json &steps, uint64_t seed, bool random_ids, Pro
       }
     }
   }
-  // clean up the per-thread stacks (on their threads, LIFO)
-  for (size_t t = 1; t < w.scopes.size(); ++t)
-    if (!w.scopes[t].empty())
-      run_on((int)t, [&] {
-        while (!w.scopes[t].empty())
-          w.scopes[t].pop_back();
-      });
+  // clean up: destroy the remaining Scope objects, then unwind whatever frames are left on every worker
+  w.scopes.clear();
+  for (size_t t = 1; t <= g_workers.size(); ++t)
+    if (g_workers[t - 1])
+      run_on((int)t, [] { base_reset(); });
   w.ents.clear();
   w.providers.clear();
   if (!ok)
@@ -997,6 +1020,7 @@ static int cmd_record(long nprog, uint64_t seed, int nthr, int maxops, bool rand
     std::mt19937_64 &g = w.rng;
     std::cout << "{\"e\":\"Cfg\",\"prog\":" << pi << "}\n";
     int forks_here = 0;
+    int next_scope = 0;
     int nops = 30 + (int)(g() % (uint64_t)(maxops - 29));
     int nremote = 0;
     auto tsid = [&](const std::string &h) {
@@ -1195,18 +1219,39 @@ static int cmd_record(long nprog, uint64_t seed, int nthr, int maxops, bool rand
           w.hold[t] = true;
           continue;
         }
+        if (w.scopes.size() >= 8)
+          continue;
         w.maybe_recycle(t);
-        run_on(t, [&] { w.scopes[(size_t)t].emplace_back(new api::Scope(w.ents[e].span)); });
-        json ev{{"e", "with"}, {"t", t}, {"en", e + 1}};
+        int sc = ++next_scope;
+        run_on(t, [&] { w.scopes[sc].reset(new api::Scope(w.ents[e].span)); });
+        w.scope_thread[sc] = t;
+        json ev{{"e", "with"}, {"t", t}, {"en", e + 1}, {"sc", sc}};
         ev["cur"] = cur();
         std::cout << ev.dump() << "\n";
       }
       else if (r < 85)
       {
-        if (w.scopes[(size_t)t].empty())
+        if (w.scopes.empty())
           continue;
-        run_on(t, [&] { w.scopes[(size_t)t].pop_back(); });
-        json ev{{"e", "release"}, {"t", t}};
+        // destroy a Scope: mostly the newest one of this thread on its own thread (LIFO), otherwise ANY live
+        // scope on ANY thread (out of order, already unwound, created elsewhere)
+        int sc = 0;
+        if (g() % 100 < 55)
+        {
+          for (auto &kv : w.scope_thread)
+            if (kv.second == t && w.scopes.count(kv.first))
+              sc = kv.first;
+        }
+        if (sc == 0)
+        {
+          auto it = w.scopes.begin();
+          std::advance(it, (long)(g() % w.scopes.size()));
+          sc = it->first;
+          if (g() % 2)
+            t = w.scope_thread[sc];
+        }
+        run_on(t, [&] { w.scopes.erase(sc); });
+        json ev{{"e", "release"}, {"t", t}, {"sc", sc}};
         ev["cur"] = cur();
         std::cout << ev.dump() << "\n";
       }
@@ -1221,12 +1266,10 @@ static int cmd_record(long nprog, uint64_t seed, int nthr, int maxops, bool rand
     for (size_t e = 0; e < w.ents.size(); ++e)
       if (!w.ents[e].remote && !w.ents[e].ended)
         do_end(1 + (int)(e % (size_t)nthr), e);
-    for (size_t t = 1; t < w.scopes.size(); ++t)
-      if (!w.scopes[t].empty())
-        run_on((int)t, [&] {
-          while (!w.scopes[t].empty())
-            w.scopes[t].pop_back();
-        });
+    w.scopes.clear();
+    for (size_t t = 1; t <= g_workers.size(); ++t)
+      if (g_workers[t - 1])
+        run_on((int)t, [] { base_reset(); });
     w.ents.clear();
     w.providers.clear();
     gen_n = w.gen.n;
